@@ -5,6 +5,8 @@ from lab import base, httpref
 from lab.lab import Lab, run_cases, Resp, Conn, request_bytes
 
 STD_REQ = ["Keep-Alive", "TE", "Trailer", "Upgrade", "Proxy-Connection", "Proxy-Authenticate"]
+REG_REQ = ["From", "Referer", "Accept-Language", "Accept-Charset", "Content-Language", "Link", "Warning"]
+REG_RSP = ["Content-Language", "Link", "Server", "Content-Location", "Warning", "Accept-Ranges", "Retry-After"]
 STD_RSP = ["Keep-Alive", "Trailer", "Upgrade", "Proxy-Connection", "Proxy-Authenticate"]
 
 
@@ -18,6 +20,11 @@ def gen_side(r, marker, std):
     listed = []
     n_ext = r.randrange(0, 5)
     ext_names = [f"X-Hop{r.randrange(1000)}-{i}" for i in range(n_ext)]
+    # a sender may also nominate REGISTERED end-to-end fields (not framing/routing ones) as hop-by-hop for this connection
+    if r.random() < 0.35:
+        pool = REG_RSP if std is STD_RSP else REG_REQ
+        for nme in r.sample(pool, r.randrange(1, 3)):
+            ext_names.append(nme)
     e2e_names = [f"X-E2e{r.randrange(1000)}-{i}" for i in range(r.randrange(0, 4))]
     # Connection header(s) listing the extension names with noise
     nconn = r.choice([1, 1, 2, 3]) if ext_names else r.choice([0, 1])
